@@ -97,3 +97,46 @@ def build3(m):
                        ('__assert__', ('not self._suppress_ptag_stack[len(self._suppress_ptag_stack) - 1]', ['C03', 'C02']))]},
                    body_types={'elements': TList(STR)},
                    modifies=['self._suppress_ptag_stack'], options={'restores': True, 'concat_axioms': True}, prop=['C03', 'C08']))
+
+
+def build4(m):
+    """MathJaxRenderer.render_document (C18): exactly the HTML renderer's document followed by the
+    script line - for every document, the empty one included."""
+    MMOD = 'mistletoe.contrib.mathjax'
+    m.namespaces.setdefault(MMOD, {})
+    DOC = TRef('DocTok')
+    m.classes.setdefault('DocTok', {})
+    MJ = TRef('MathJaxRenderer')
+    m.classes['MathJaxRenderer'] = {}
+    m.classes.setdefault('HtmlRendererBase', {})
+    m.subclass_of['MathJaxRenderer'] = 'HtmlRendererBase'
+    m.ufunc('html_render_document', [DOC], STR)
+    m.methods[('HtmlRendererBase', 'render_document')] = 'mistletoe.html_renderer:HtmlRenderer.render_document#mathjax'
+    m.add(Contract('mistletoe.html_renderer:HtmlRenderer.render_document#mathjax', [('self', TRef('HtmlRendererBase')), ('token', DOC)],
+                   returns=STR, trusted=True, pure=True, ensures=['result == html_render_document(token)'],
+                   note='the inherited HTML rendering of the document as an uninterpreted function of the token '
+                        '(super() resolves to HtmlRenderer: lemma mro:MathJaxRenderer-html-first)'))
+    # the script line is read from the class body of the tree under verification (never copied here)
+    import ast as _ast
+    import os as _os
+    SRC = None
+    try:
+        _tree = _ast.parse(open(_os.path.join(_os.environ.get('PYVC_REPO') or _os.environ.get('VERIF_REPO', '/repo'),
+                                              'mistletoe', 'contrib', 'mathjax.py')).read())
+        for _n in _ast.walk(_tree):
+            if isinstance(_n, _ast.ClassDef) and _n.name == 'MathJaxRenderer':
+                for _a in _n.body:
+                    if isinstance(_a, _ast.Assign) and _ast.unparse(_a.targets[0]) == 'mathjax_src' \
+                            and isinstance(_a.value, _ast.Constant) and isinstance(_a.value.value, str):
+                        SRC = _a.value.value
+    except OSError:
+        SRC = None
+    if SRC is None:
+        return        # no literal script line: render_document stays without a contract (undecided, never passed)
+    m.class_attrs[('MathJaxRenderer', 'mathjax_src')] = ('const', mk_str(SRC))
+    one_line = SRC.startswith('<script ') and SRC.endswith('</script>\n') and SRC.count('\n') == 1 and SRC.count('<script') == 1
+    m.add(Contract(MMOD + ':MathJaxRenderer.render_document', [('self', MJ), ('token', DOC)], returns=STR,
+                   ensures=[('result == html_render_document(token) + %r' % SRC, 'C18'),
+                            # ... and what is appended is one script line (decided on the literal of this tree)
+                            ('True' if one_line else 'False', 'C18')],
+                   prop=['C18']))
